@@ -45,8 +45,10 @@ def functional_case(case):
     spec, what = case["grid"], case["what"]
     geo = geometry(spec)
     grid = make_grid(spec)
+    compiled = bool(case.get("compiled"))  # route: grid.make_operator(..., backend="numba") (compiled BCs + kernel)
     Vs = {"grid.cell_volumes": np.broadcast_to(grid.cell_volumes, grid.shape), "exact closed form": exact_volumes(np, geo)}
     viol, n = [], 0
+    kw_cache = {}
     dxmin = min(geo["dx"])
     vmax = float(np.max(Vs["exact closed form"]))
     kind = geo["kind"]
@@ -59,14 +61,19 @@ def functional_case(case):
                 if idx is not None:
                     f.data[idx] = 1.0
                 kw = {} if conservative is None else {"conservative": conservative}
-                lap = f.laplace("auto_periodic_neumann", **kw).data
+                if compiled:
+                    if "lap_op" not in kw_cache or kw_cache["lap_kw"] != kw:
+                        kw_cache["lap_op"], kw_cache["lap_kw"] = grid.make_operator("laplace", "auto_periodic_neumann", backend="numba", **kw), kw
+                    lap = kw_cache["lap_op"](f.data)
+                else:
+                    lap = f.laplace("auto_periodic_neumann", **kw).data
                 n += 1
                 for k, V in Vs.items():
                     w[k].append(float(np.sum(V * lap)))
             for k, vals in w.items():
                 worst = max(abs(v) for v in vals)
                 if not worst <= 1e-12 * scale:
-                    viol.append({"sig": f"{kind}|laplace|volume-weighted sum does not vanish ({k})",
+                    viol.append({"sig": f"{kind}|laplace{'|compiled make_operator' if compiled else ''}|volume-weighted sum does not vanish ({k})",
                                  "msg": f"{grid_name(spec)} laplace(auto_periodic_neumann): |sum V L e_k| up to {worst:.3g} (scale {scale:.3g})",
                                  "detail": {"functional": vals[:12]}})
         # a zero-flux condition given explicitly per side must behave the same
@@ -90,17 +97,22 @@ def functional_case(case):
                 f.data[(c,) + idx] = 1.0
                 # tangential components need some condition for the ghost cells the kernel never reads: pre-fill
                 f._data_full[...] = np.where(np.isfinite(f._data_full), f._data_full, 0.0)
-                d = f.divergence(bcv).data
+                if compiled:
+                    if "div_op" not in kw_cache:
+                        kw_cache["div_op"] = grid.make_operator("divergence", bcv, backend="numba")
+                    d = kw_cache["div_op"](f.data)
+                else:
+                    d = f.divergence(bcv).data
                 n += 1
                 for k, V in Vs.items():
                     w[k].append(float(np.sum(V * d)))
         for k, vals in w.items():
             worst = max(abs(v) for v in vals)
             if not worst <= 1e-12 * scale:
-                viol.append({"sig": f"{kind}|divergence|volume-weighted sum does not vanish ({k})",
+                viol.append({"sig": f"{kind}|divergence{'|compiled make_operator' if compiled else ''}|volume-weighted sum does not vanish ({k})",
                              "msg": f"{grid_name(spec)} divergence(normal_value 0): |sum V div e_k| up to {worst:.3g}",
                              "detail": {"functional": vals[:12]}})
-    return {"v": viol, "n": n, "key": f"{grid_name(spec)}|{what}", "out": what}
+    return {"v": viol, "n": n, "key": f"{grid_name(spec)}|{what}|{compiled}", "out": what}
 
 
 SOLVERS = ["euler", "runge-kutta", "implicit", "crank-nicolson", "adams-bashforth", "scipy"]
@@ -178,6 +190,12 @@ def grids(tier):
 def main(run):
     cases = [{"grid": g, "what": w} for g in grids(run.tier) for w in ("laplace", "divergence")]
     run.explore("checks.c05:functional_case", cases, mode="I", part="(a) conservation functional on every basis vector")
+    # the same functional through the really compiled operator-with-BC (compiled ghost-cell setters), mode J
+    cgrids = [["cart", [[0, 1], [-1, 3]], [3, 2], [False, False]], ["cart", [[0, 1], [-1, 3]], [2, 3], [True, False]],
+              ["cart", [[0, 1], [0, 2], [-3, 3]], [2, 3, 2], [False, True, False]], ["cart", [[0, 1], [0, 2], [0, 3]], [2, 2, 2], [False, False, False]],
+              ["sph", [0.7, 2], 3], ["polar", 2, 3], ["cyl", [1, 2.5], [0, 1], [2, 3], False]]
+    ccases = [{"grid": g, "what": w, "compiled": True} for g in cgrids for w in ("laplace", "divergence")]
+    run.explore("checks.c05:functional_case", ccases, mode="J", part="(a) functional through compiled operators", chunksize=1, limit=2400)
     sgrids = [["unit", [4], [False]], ["cart", [[0, 1], [-1, 3]], [3, 2], [True, False]], ["sph", [0.7, 2], 3], ["polar", 2, 4],
               ["cyl", 2, [0, 1], [3, 2], False], ["cart", [[0, 1], [0, 2], [-3, 3]], [2, 2, 2], [False, True, False]]]
     scases = [{"grid": g, "eq": e, "solver": s, "backend": b, "seed": run.seed}
